@@ -27,7 +27,10 @@ Dist(a, b) == IF a = b THEN 0 ELSE LET p == IF a < b THEN <<a, b>> ELSE <<b, a>>
               THEN CASE p = <<1, 2>> -> 30 [] p = <<1, 3>> -> 40 [] p = <<2, 3>> -> 50
               ELSE CASE p = <<1, 2>> -> 4 [] p = <<1, 3>> -> 10 [] p = <<2, 3>> -> 2
 (* areas of the slot boxes of the harness *)
-SlotArea(s) == CASE s = 1 -> 3200 [] s = 2 -> 2400 [] s = 3 -> 2500 [] s = 4 -> 2880
+SlotArea(s) == CASE s = 1 -> 3200 [] s = 2 -> 2400 [] s = 3 -> 2500 [] s = 4 -> 2880 [] s = 5 -> 2048
+(* slot 5 is slot 1 seen smaller (same centre and aspect, height 64 instead of 80: IoU 0.64 with slot 1): an object
+   whose apparent size changes.  Place(s) is where the box is; area gates read the box of the detection itself. *)
+Place(s) == IF s = 5 THEN 1 ELSE s
 MaxOf(S) == CHOOSE x \in S : \A y \in S : y <= x
 RECURSIVE SumSet(_, _)
 SumSet(f, S) == IF S = {} THEN 0 ELSE LET x == CHOOSE y \in S : TRUE IN f[x] + SumSet(f, S \ {x})
@@ -93,7 +96,7 @@ VPredictBody(st, s, dets) ==
       taken == {vis[i] : i \in claimers} \ {0}
       prow == rows \ claimers
       pcol == live \ taken
-      W    == [i \in prow |-> [k \in pcol |-> IF dets[i].slot = tr[k].slot THEN Weight(dets[i].conf) ELSE 0]]
+      W    == [i \in prow |-> [k \in pcol |-> IF Place(dets[i].slot) = Place(tr[k].slot) THEN Weight(dets[i].conf) ELSE 0]]
       best == A!Best(W, prow, pcol, Thr)
       pa   == CHOOSE x \in best : TRUE
       target(i) == IF i \in claimers THEN vis[i] ELSE pa[i]
@@ -103,7 +106,7 @@ VPredictBody(st, s, dets) ==
       nNew == Cardinality({i \in rows : target(i) = 0})
       upd(k) == IF \E i \in rows : target(i) = k
                 THEN LET i == CHOOSE j \in rows : target(j) = k IN
-                     [tr[k] EXCEPT !.last = e, !.len = @ + 1, !.cid = dets[i].cid, !.vt = kind(i),
+                     [tr[k] EXCEPT !.last = e, !.len = @ + 1, !.cid = dets[i].cid, !.vt = kind(i), !.slot = dets[i].slot,
                                    !.ring = Ring(@, <<dets[i].slot, dets[i].conf>>),
                                    !.fh = Ring(@, dets[i].f),
                                    !.gal = Continue(@, dets[i].f, dets[i].q, Collectable(dets, i))]
@@ -115,7 +118,10 @@ VPredictBody(st, s, dets) ==
       trs == [k \in 1..(n + nNew) |-> IF k <= n THEN upd(k) ELSE newt(k - n)]
   IN [unique |-> /\ tieFree /\ Cardinality(best) = 1
                  (* R1 keeps objects stationary: no appearance match that moves a track to another slot *)
-                 /\ \A i \in claimers : vis[i] # 0 => tr[vis[i]].slot = dets[i].slot,
+                 /\ \A i \in claimers : vis[i] # 0 => Place(tr[vis[i]].slot) = Place(dets[i].slot)
+                 (* two sizes of one place in a single call would make the positional weights depend on the
+                    smoothed size of the track: outside the slot world *)
+                 /\ \A i, j \in rows : Place(dets[i].slot) = Place(dets[j].slot) => dets[i].slot = dets[j].slot,
       st     |-> [st EXCEPT !.tracks = trs, !.epoch[s] = e, !.sub = @ + Len(dets)],
       ret    |-> [i \in rows |-> [id |-> kOf(i), scene |-> s, ep |-> e, len |-> trs[kOf(i)].len,
                                   slot |-> dets[i].slot, conf |-> dets[i].conf, cid |-> dets[i].cid,
